@@ -93,3 +93,16 @@ Definition chk_power (sub : string) (obs : option request) : bool :=
   | None, None => true
   | _, _ => false
   end.
+
+(* one run with at most one failing interface call: the calls made on the interface object
+   (the command counted as one step) and how main ends *)
+Definition run_end_eqb (a b : run_end) : bool :=
+  match a, b with
+  | RunReturns, RunReturns => true
+  | RunExit p c, RunExit p' c' => option_eqb String.eqb p p' && Z.eqb c c'
+  | RunRaises e, RunRaises e' => err_eqb e e'
+  | _, _ => false
+  end.
+Definition chk_run (fault : option (istep * err)) (calls : list istep) (e : run_end) : bool :=
+  let '(c, r) := main_run run_shape exit_table fault in
+  list_eqb istep_eqb c calls && run_end_eqb r e.
